@@ -630,6 +630,8 @@ def table_bad(tb, arr, doms):
       full     tb[s, a, ns]   one tuple of field values - unless that tuple is itself an element of the outermost
                               domain: such a key always selects that element (its row)
       row      tb[s]          the sub-table of the outermost element
+      list     tb[[s3, s1, s2]] a list of outermost labels (full length in another order, and a shorter one):
+                              the rows of exactly these labels, in the order asked for
     Returns up to five mismatches as [mode, repr(key), got]."""
     arr = np.asarray(arr)
     outer = {lab: i for i, lab in enumerate(doms[0])}
@@ -643,7 +645,11 @@ def table_bad(tb, arr, doms):
 
     def note(mode, key, v):
         if len(bad) < 5:
-            bad.append([mode, repr(key), v if isinstance(v, str) else repr(np.asarray(v).tolist())[:80]])
+            try:
+                shown = v if isinstance(v, str) else repr(np.asarray(v, dtype=float).tolist())[:80]
+            except Exception:                             # noqa: BLE001
+                shown = repr(v)[:80]
+            bad.append([mode, repr(key)[:80], shown])
     def look(fn):
         try:
             return fn()
@@ -661,6 +667,15 @@ def table_bad(tb, arr, doms):
         v = look(lambda: tb[lab])
         if not same(v, arr[i]):
             note("row", lab, v)
+    n = len(doms[0])
+    if n >= 2:
+        for order in ([(i + 1) % n for i in range(n)], list(range(n - 1, -1, -1)), [n - 1, 0][:max(1, n - 1)]):
+            labs = [doms[0][i] for i in order]
+            v = look(lambda: tb[labs])
+            if not same(v, arr[order]):
+                note("list", labs, v)
+            elif hasattr(v, "table_index") and list(v.table_index.field_domains[0]) != labs:
+                note("list-domain", labs, list(v.table_index.field_domains[0]))
     for idx in itertools.product(*[range(len(d)) for d in doms]):
         key = tuple(d[i] for d, i in zip(doms, idx))
         v = look(lambda: nested(key))
